@@ -23,7 +23,7 @@ import tlc
 from c04 import DATES
 from common import Check, pool_map
 
-LEVEL = "model_checking"
+LEVEL = "exploration"
 GROUPS = ["hh", "wthh", "fg", "bg", "eg", "ehe", "sn"]
 
 
